@@ -313,6 +313,21 @@ JReg(line, rg) ==
    cls |-> IF ~r.judged THEN "Reg>state-unknown" ELSE IF r.drift THEN "Reg>drift" ELSE "Reg>conforms",
    rg |-> r.rg, kinds |-> r.kinds]
 
+\* A forced two-party schedule (op "gated"): the writer was held at every registry hook of its lock
+\* section; at each pause fresh readers made the probe calls.  A probe completes during a pause
+\* exactly when the lock-free lookup finds its key, i.e. when the key was published before the pause:
+\* a store hook fires just BEFORE the atomic store, so at pause k the stores of the earlier hooks
+\* are visible.  (Model conformance: drift.  What the calls return is judged on their own lines; a
+\* reader that never returns is a hang.)
+JGated(line, rg) ==
+  LET ps == line.obs.pauses
+      pr == line.obs.probes
+      Pub(k) == rg.table \cup {<<ps[j].s, ps[j].p>> : j \in {jj \in 1..(k - 1) : ps[jj].k = "store"}}
+      agrees == \A k \in 1..Len(ps) : \A i \in 1..Len(pr) : ps[k].early[i] = (<<pr[i].s, pr[i].p>> \in Pub(k))
+      known == ~rg.lost /\ rg.pe = line.pe IN
+  [ cls |-> "Gated>" \o line.obs.out \o (IF known THEN "" ELSE "/state-unknown"),
+    fail |-> If(line.obs.out = "ok", "par_nocrash") \cup (IF known THEN If(agrees, "reg_conform") ELSE {}) ]
+
 \* ---- concurrent sections (C08) --------------------------------------------------------
 \* The calls made inside a concurrent section are ordinary lines, judged like sequential calls
 \* (that IS the property: every call returns what it would return sequentially).  The section
